@@ -57,7 +57,7 @@ func runClosest(in closestIn) (closestObs, string) {
 	switch in.Route {
 	case "":
 		c.VerifSetPwmMap(pm)
-	case "config", "persist", "hwmon":
+	case "config", "persist", "hwmon", "cmd", "init":
 		closestSeq++
 		dir := filepath.Join(closestWork, fmt.Sprintf("r%d", closestSeq))
 		_ = os.MkdirAll(dir, 0o755)
@@ -66,7 +66,7 @@ func runClosest(in closestIn) (closestObs, string) {
 		for k, v := range pm {
 			given[k] = v
 		}
-		if in.Route == "config" || in.Route == "hwmon" {
+		if in.Route == "config" || in.Route == "hwmon" || in.Route == "cmd" || in.Route == "init" {
 			filePath = filepath.Join(dir, "pwm")
 			_ = os.WriteFile(filePath, []byte("0"), 0o644)
 			fc := configuration.FanConfig{ID: "rec", Curve: "c", PwmMap: &given, File: &configuration.FileFanConfig{Path: filePath}}
@@ -74,6 +74,21 @@ func runClosest(in closestIn) (closestObs, string) {
 				fc = configuration.FanConfig{ID: "rec", Curve: "c", PwmMap: &given, NeverStop: in.NeverStop, MinPwm: in.Lo, MaxPwm: in.Hi,
 					HwMon: &configuration.HwMonFanConfig{Index: 1, RpmChannel: 1, PwmChannel: 1, PwmPath: filePath,
 						RpmInputPath: filepath.Join(dir, "fan1_input"), PwmEnablePath: filepath.Join(dir, "pwm1_enable")}}
+			}
+			if in.Route == "init" { // a hwmon fan with an RPM input, driven through the real initialization sequence below
+				_ = os.WriteFile(filepath.Join(dir, "fan1_input"), []byte("1200"), 0o644)
+				fc = configuration.FanConfig{ID: "rec", Curve: "c", PwmMap: &given,
+					HwMon: &configuration.HwMonFanConfig{Index: 1, RpmChannel: 1, PwmChannel: 1, PwmPath: filePath,
+						RpmInputPath: filepath.Join(dir, "fan1_input"), PwmEnablePath: filepath.Join(dir, "pwm1_enable")}}
+			}
+			if in.Route == "cmd" { // a cmd fan: the value is handed to a command through the %pwm% placeholder
+				set := filepath.Join(dir, "set.sh")
+				get := filepath.Join(dir, "get.sh")
+				_ = os.WriteFile(set, []byte("#!/bin/sh\necho \"$1\" > "+filePath+"\n"), 0o755)
+				_ = os.WriteFile(get, []byte("#!/bin/sh\ncat "+filePath+"\n"), 0o755)
+				fc = configuration.FanConfig{ID: "rec", Curve: "c", PwmMap: &given, Cmd: &configuration.CmdFanConfig{
+					SetPwm: &configuration.ExecConfig{Exec: set, Args: []string{"%pwm%"}},
+					GetPwm: &configuration.ExecConfig{Exec: get}}}
 			}
 			ff, err := fans.NewFan(fc)
 			if err != nil {
@@ -100,6 +115,22 @@ func runClosest(in closestIn) (closestObs, string) {
 			c = controller.VerifNewController(pers, fan, nil, nil, 0)
 		}
 		if p := catch(func() {
+			if in.Route == "init" {
+				// what `fan2go fan init` does: the whole initialization sequence (map, sweep over the supported inputs,
+				// RPM curve), after which the SAME controller keeps being used
+				savedDiff := configuration.CurrentConfig.MaxRpmDiffForSettledFan
+				savedNum, savedDen := util.VerifSleepNum, util.VerifSleepDen
+				configuration.CurrentConfig.MaxRpmDiffForSettledFan = 10
+				util.VerifSleepNum, util.VerifSleepDen = 0, 0 // the settle waits of the sequence take no time here
+				defer func() {
+					configuration.CurrentConfig.MaxRpmDiffForSettledFan = savedDiff
+					util.VerifSleepNum, util.VerifSleepDen = savedNum, savedDen
+				}()
+				if err := c.RunInitializationSequence(); err != nil {
+					panic(err)
+				}
+				return
+			}
 			if err := c.VerifComputePwmMap(); err != nil {
 				panic(err)
 			}
@@ -198,8 +229,12 @@ func init() {
 			nEmit++
 			random := len(tags) > 0 && tags[0] == "random"
 			// every random map, and a rotating tenth of the exhaustive ones, also through the two real routes
-			for ri, route := range []string{"config", "persist", "hwmon"} {
-				if in.Route == "" && (random || nEmit%30 == ri*10) {
+			for ri, route := range []string{"config", "persist", "hwmon", "cmd", "init"} {
+				want := random || nEmit%30 == ri*10
+				if route == "cmd" || route == "init" { // a process per request / a whole sequence per case: fewer of these
+					want = (random && nEmit%6 == ri) || nEmit%200 == ri*20
+				}
+				if in.Route == "" && want {
 					in2 := in
 					in2.Route = route
 					if route == "hwmon" { // limits derived from the input alone
